@@ -405,6 +405,201 @@ let run_c04 toks =
         | Some chs -> "[" ^ String.concat "," (List.map (fun ch -> string_of_int (List.length ch)) chs) ^ "]"))
   | _ -> failwith "bad c04 case"
 
+(* ------------------------------------------------------------------------- chunk cache (C12, C13) *)
+let cache_chunk_bytes k i len = List.init len (fun j -> byte_tab.((k * 131 + i * 17 + j * 7 + 3) mod 256))
+let cache_slice (uni : (n list * int array) array) k s e =
+  let (_, lens) = uni.(k) in
+  let offs = ref [0] and data = ref [] and tot = ref 0 in
+  for i = s to e - 1 do
+    let l = if i < Array.length lens then lens.(i) else 1 in
+    data := !data @ cache_chunk_bytes k i l; tot := !tot + l; offs := !offs @ [!tot]
+  done;
+  (!offs, !data)
+let int_list_of_bytes l = List.map int_of_n l
+let cksum_bytes (l : n list) = let a = arr_of_bytes l in cksum a 0 (Array.length a)
+let cache_err_class c = match int_of_n c with 1 -> "InvalidArguments" | 2 -> "BadRange" | 3 -> "IO" | 4 -> "General" | _ -> "?"
+let cache_res_str = function
+  | CHit (rs, re, offs, data) -> Printf.sprintf "hit:%s-%s:%s:%s" (dec_n rs) (dec_n re) (String.concat "," (List.map dec_n offs)) (cksum_bytes data)
+  | CMiss -> "miss" | COk -> "ok" | CErr c -> "err:" ^ cache_err_class c | CPanic -> "PANIC"
+let cache_state_line (s : cstate) =
+  let keys = List.sort (fun (a, _) (b, _) -> compare (int_list_of_bytes a) (int_list_of_bytes b)) s.tracked in
+  let t = List.map (fun (k, its) -> cksum_bytes k ^ "=" ^ String.concat "," (List.map (fun (it, _) -> Printf.sprintf "%s-%s-%s-%s" (dec_n it.i_s) (dec_n it.i_e) (dec_n it.i_len) (dec_n it.i_crc)) its)) keys in
+  let files = List.sort compare (List.map (fun (((a, b), c), d) -> (int_list_of_bytes a, int_list_of_bytes b, int_list_of_bytes c, int_list_of_bytes d)) s.fs) in
+  let buf = Buffer.create 256 in
+  let add l = List.iter (fun x -> Buffer.add_char buf (Char.chr x)) l in
+  List.iter (fun (a, b, c, d) -> add a; Buffer.add_char buf '/'; add b; Buffer.add_char buf '/'; add c; Buffer.add_char buf '\000'; add d; Buffer.add_char buf '\000') files;
+  Printf.sprintf "n=%s b=%s t=%s f=%d:%s" (dec_n s.nitems) (dec_n s.tbytes) (if t = [] then "-" else String.concat ";" t) (List.length files) (cksum_str (Buffer.contents buf))
+let parse_tracked (v : string) : (n list * (item * bool) list) list =
+  (* V:<keyhex>=s-e-len-crc,...;...  or V:- *)
+  let v = String.sub v 2 (String.length v - 2) in
+  if v = "-" then [] else
+    List.map (fun e -> match String.split_on_char '=' e with
+        | [k; its] ->
+          (bytes_of_hex k, List.map (fun i -> match String.split_on_char '-' i with
+               | [a; b; c; d] -> ({ i_s = n_of_string a; i_e = n_of_string b; i_len = n_of_string c; i_crc = n_of_string d }, true)
+               | _ -> failwith "bad item") (List.filter (fun x -> x <> "") (String.split_on_char ',' its)))
+        | _ -> failwith "bad tracked") (String.split_on_char ';' v)
+
+let run_cache toks =
+  let (toks, aux) = split_aux toks in
+  let aux = ref (List.filter (fun x -> x <> "") aux) in
+  let next_aux () = match !aux with a :: r -> aux := r; a | [] -> failwith "aux exhausted" in
+  let ops = split_ops toks in
+  let uni = ref [||] in
+  let cache : cstate option ref = ref None in
+  let out = ref [] in
+  let step = ref 0 in
+  let emit res = (match !cache with Some s -> out := Printf.sprintf "%d %s %s" !step res (cache_state_line s) :: !out | None -> ()); incr step in
+  let key_of k = fst (!uni).(k) in
+  let mk_put k s e = let (offs, data) = cache_slice !uni k s e in OPut (key_of k, n_of_int s, n_of_int e, List.map n_of_int offs, data) in
+  (* run a thread from pc p until its next schedule point; victims are inferred at the commit from the observed post-state *)
+  let advance (s : cstate) (p : pc) (post : (n list * (item * bool) list) list) (stop : bool) =
+    let rec go s p ok guard =
+      if guard = 0 then (s, p, false) else
+      match p with
+      | PDone _ -> (s, p, ok)
+      | _ ->
+        let vs = (match p with PHookFW (o, nw) -> infer_victims s (op_key o) nw post | _ -> []) in
+        let ((s1, p1), ok1) = mstep s p vs in
+        let ok = ok && ok1 in
+        (match p1 with
+         | PDone _ -> (s1, p1, ok)
+         | _ -> if stop && at_hook p1 then (s1, p1, ok) else go s1 p1 ok (guard - 1)) in
+    go s p true 100000 in
+  let run_seq s o post =
+    match start_op o with
+    | PDone r -> (s, r, true)
+    | p -> (match advance s p post false with (s1, PDone r, ok) -> (s1, r, ok) | (s1, _, _) -> (s1, CPanic, false)) in
+  List.iter (fun op ->
+      match op with
+      | ["U"; kb; lens] -> uni := Array.append !uni [| (bytes_of_hex kb, Array.of_list (List.map int_of_string (String.split_on_char ',' lens))) |]
+      | ["O"; cap] ->
+        let t = next_aux () in
+        let nent = int_of_string (String.sub t 2 (String.length t - 2)) in
+        let ents = List.init nent (fun _ -> String.split_on_char ':' (next_aux ())) in
+        let b64 = Hashtbl.create 64 and u8 = Hashtbl.create 64 in
+        let kind = function "f" -> N0 | "d" -> n_of_int 1 | _ -> n_of_int 2 in
+        (* build the three-level tree from the pre-order listing *)
+        let tree = ref [] in
+        List.iter (fun e -> match e with
+            | ["e"; d; name; k; content; b; u] ->
+              let name = bytes_of_hex name in
+              if b <> "!" then begin
+                let dec = bytes_of_hex b in
+                Hashtbl.replace b64 (int_list_of_bytes name) dec;
+                if List.length dec >= 32 then Hashtbl.replace u8 (int_list_of_bytes (skipn (N.to_nat (n_of_int 32)) dec)) (u = "1")
+              end;
+              (match d with
+               | "1" -> tree := { p_name = name; p_kind = kind k; p_keys = [] } :: !tree
+               | "2" -> (match !tree with p :: r -> tree := { p with p_keys = { k_name = name; k_kind = kind k; k_files = [] } :: p.p_keys } :: r | [] -> failwith "tree")
+               | _ -> (match !tree with
+                   | p :: r -> (match p.p_keys with
+                       | kk :: kr -> tree := { p with p_keys = { kk with k_files = { f_name = name; f_kind = kind k; f_content = bytes_of_hex content } :: kk.k_files } :: kr } :: r
+                       | [] -> failwith "tree")
+                   | [] -> failwith "tree"))
+            | _ -> failwith "bad tree entry") ents;
+        let tree = List.rev_map (fun p -> { p with p_keys = List.rev_map (fun k -> { k with k_files = List.rev k.k_files }) p.p_keys }) !tree in
+        let b64d name = Hashtbl.find_opt b64 (int_list_of_bytes name) in
+        let utf8 suf = (match Hashtbl.find_opt u8 (int_list_of_bytes suf) with Some b -> b | None -> failwith "utf8 table") in
+        (match initialize b64d utf8 (n_of_string cap) tree with
+         | None -> out := Printf.sprintf "%d open-PANIC" !step :: !out; incr step; cache := None
+         | Some (Inl c) -> out := Printf.sprintf "%d open-err:%s" !step (cache_err_class c) :: !out; incr step; cache := None
+         | Some (Inr s) -> cache := Some s; ignore (next_aux ()); emit "open")
+      | ["C"] -> cache := None
+      | [("P" | "G") as kind; k; s; e] ->
+        (match !cache with
+         | None -> ()
+         | Some st ->
+           let k = int_of_string k and s = int_of_string s and e = int_of_string e in
+           let post = parse_tracked (next_aux ()) in
+           let o = if kind = "P" then mk_put k s e else OGet (key_of k, n_of_int s, n_of_int e) in
+           let (s1, r, ok) = run_seq st o post in
+           cache := Some s1;
+           emit (kind ^ ":" ^ cache_res_str r ^ (if ok then "" else " EVICTION-NOT-ALLOWED-BY-MODEL")))
+      | ["PB"; k; s; e; variant] ->
+        (match !cache with
+         | None -> ()
+         | Some st ->
+           let k = int_of_string k and s = int_of_string s and e = int_of_string e in
+           let post = parse_tracked (next_aux ()) in
+           let (offs, data) = cache_slice !uni k (Stdlib.min s e) (Stdlib.max s e) in
+           let offs = Array.of_list offs and data = Array.of_list data in
+           let n = Array.length offs in
+           let offs = ref (Array.to_list offs) in
+           (match variant with
+            | "len" -> offs := List.filteri (fun i _ -> i < n - 1) !offs
+            | "first" -> offs := List.mapi (fun i x -> if i = 0 then 1 else x) !offs
+            | "last" -> offs := List.mapi (fun i x -> if i = n - 1 then x + 1 else x) !offs
+            | "incr" -> let a = Array.of_list !offs in (if n > 2 then a.(1) <- a.(2) else a.(0) <- a.(1)); offs := Array.to_list a
+            | "range" -> ()
+            | "data" -> let l = Array.length data - 1 in data.(l) <- byte_tab.((int_of_n data.(l)) lxor 0x40)
+            | "lens" -> if n > 2 then offs := List.mapi (fun i x -> if i = 1 then x + 1 else x) !offs
+            | _ -> failwith "variant");
+           let st = ref st in
+           let skipped =
+             if variant = "data" || variant = "lens" then begin
+               let (s1, r, _) = run_seq !st (OGet (key_of k, n_of_int s, n_of_int e)) [] in
+               st := s1; (match r with CHit _ -> false | _ -> true)
+             end else false in
+           let skipped = skipped || (variant = "lens" && n > 2 && List.nth !offs 1 >= List.nth !offs 2) in
+           if skipped then begin cache := Some !st; emit "PB:skipped" end
+           else begin
+             let o = OPut (key_of k, n_of_int s, n_of_int e, List.map n_of_int !offs, Array.to_list data) in
+             let (s1, r, ok) = run_seq !st o post in
+             cache := Some s1; emit ("PB:" ^ cache_res_str r ^ (if ok then "" else " EVICTION-NOT-ALLOWED-BY-MODEL"))
+           end)
+      | "DD" :: _ ->
+        (match !cache with
+         | None -> ()
+         | Some st ->
+           let x = next_aux () in
+           (match String.split_on_char ':' x with
+            | ["X"; a; b; c] -> cache := Some { st with fs = fs_unlink st.fs ((bytes_of_hex a, bytes_of_hex b), bytes_of_hex c) }
+            | _ -> ()))
+      | ("DF" | "DT" | "DX" | "DR" | "DP" | "DV") :: _ -> ()
+      | ["R"; progs; _sched] ->
+        (match !cache with
+         | None -> ()
+         | Some st0 ->
+           let progs = Array.of_list (List.map (fun p -> List.map (fun o -> match String.split_on_char ',' o with
+               | [kind; k; s; e] -> (kind, int_of_string k, int_of_string s, int_of_string e)
+               | _ -> failwith "prog op") (List.filter (fun x -> x <> "") (String.split_on_char ';' p))) (String.split_on_char '/' progs)) in
+           let pcs : (string * pc) option array = Array.make (Array.length progs) None in
+           let st = ref st0 in
+           let fin = ref false in
+           while not !fin do
+             let a = next_aux () in
+             if a = "S:end" then fin := true
+             else begin
+               let t = int_of_string (String.sub a 2 (String.length a - 2)) in
+               let post = parse_tracked (next_aux ()) in
+               (* the thread's current pc: a new op when it is between ops *)
+               let (kind, p) = (match pcs.(t) with
+                   | Some (kind, p) -> (kind, p)
+                   | None ->
+                     (match progs.(t) with
+                      | (kind, k, s, e) :: rest ->
+                        progs.(t) <- rest;
+                        (kind, start_op (if kind = "P" then mk_put k s e else OGet (key_of k, n_of_int s, n_of_int e)))
+                      | [] -> failwith "schedule runs a finished thread")) in
+               let (s1, p1, ok) = (match p with PDone _ -> (!st, p, true) | _ -> advance !st p post true) in
+               st := s1;
+               let label = (match p1 with
+                   | PFound (_, _, _) -> "get:after_find_match"
+                   | PRemHook (_, _) -> "remove_item:after_state_update"
+                   | PHookFM _ -> "put:after_find_match"
+                   | PHookFW (_, _) -> "put:after_file_write"
+                   | PUnl (_, _) -> "put:after_commit"
+                   | PDone r -> "done:" ^ kind ^ ":" ^ cache_res_str r
+                   | _ -> "?") in
+               pcs.(t) <- (match p1 with PDone _ -> None | _ -> Some (kind, p1));
+               cache := Some !st;
+               emit (Printf.sprintf "t%d@%s%s" t label (if ok then "" else " EVICTION-NOT-ALLOWED-BY-MODEL"))
+             end
+           done)
+      | _ -> failwith ("bad cache op " ^ String.concat " " op)) ops;
+  List.rev !out
+
 let () =
   let stream = Sys.argv.(1) in
   let ic = open_in Sys.argv.(2) in
@@ -422,6 +617,7 @@ let () =
              | "c10" -> run_c10 toks
              | "c18" -> run_c18 toks
              | "dd" -> run_dd toks
+             | "cache" -> run_cache toks
              | "c07" -> run_c07 toks
              | "bg4" -> run_bg4 toks
              | "c08" -> run_c08 toks
